@@ -252,7 +252,7 @@ func (e *Env) applyIntOp(op *IntOp, second map[string]any, nested func()) string
 	switch op.Op {
 	case "delete":
 		e.W.Sim.Purge(d.Resource, ns, name)
-	case "recreate-unowned", "recreate-foreign":
+	case "recreate-unowned", "recreate-foreign", "recreate-nonmatching":
 		e.W.Sim.Purge(d.Resource, ns, name)
 		n := vs.CopyMap(o)
 		m := n["metadata"].(map[string]any)
@@ -260,6 +260,9 @@ func (e *Env) applyIntOp(op *IntOp, second map[string]any, nested func()) string
 			delete(m, k)
 		}
 		delete(m, "ownerReferences")
+		if op.Op == "recreate-nonmatching" {
+			m["labels"] = map[string]any{"app": "someone-elses"}
+		}
 		if op.Op == "recreate-foreign" {
 			m["ownerReferences"] = []any{map[string]any{"apiVersion": "ex.io/v1", "kind": "Thing", "name": "other-parent", "uid": "uid-foreign", "controller": true}}
 		}
@@ -287,7 +290,7 @@ func (e *Env) applyIntOp(op *IntOp, second map[string]any, nested func()) string
 	return op.Op + " " + ObjID(o)
 }
 
-var intOps = []string{"delete", "recreate-unowned", "recreate-foreign", "transfer", "relabel", "orphan", "second-parent-sync"}
+var intOps = []string{"delete", "recreate-unowned", "recreate-foreign", "transfer", "relabel", "orphan", "second-parent-sync", "recreate-nonmatching"}
 
 // PropC02: only objects the parent controls are ever modified or deleted.
 func PropC02(c *vs.Case, f Factory, kind string) error {
